@@ -72,7 +72,7 @@ def _env():
             req_args.headers[self.name] = self.val
 
     class Caller(MCallerHttp):
-        _HTTP_PREFIX_MAP = {'c1': '/m1', 'c2': '/m2/v', 'c0': ''}
+        _HTTP_PREFIX_MAP = {'c1': '/m1', 'c2': '/m2/v', 'c0': '', 'c3': '/m1/'}
 
         @method_http(None, 'c1')
         def conn_c1(self):
@@ -84,6 +84,10 @@ def _env():
 
         @method_http(None, 'c0')
         def conn_c0(self):
+            return self.get_conn()
+
+        @method_http(None, 'c3')
+        def conn_c3(self):
             return self.get_conn()
 
     # building a real urllib opener loads the system certificate store (about 30 ms per connection);
@@ -176,6 +180,14 @@ def replay_history(hist):
     e = _env()
     ch = e['ch']
     conns, openers, callers = [], {}, []
+    shared = {}     # one Python list object per distinct list of adapters, passed to every derivation that uses it
+
+    def shared_list(args):
+        key = json.dumps(args, sort_keys=True)
+        if key not in shared:
+            lst = [_adapter(a) for a in args]
+            shared[key] = (lst, list(lst))
+        return shared[key][0]
 
     def probe(conn, exp, where):
         op = conn.conn_impl.opener
@@ -192,7 +204,18 @@ def replay_history(hist):
         if params != p0 or hdr != h0:
             return '%s: caller objects were modified: params %r headers %r' % (where, params, hdr)
         r = _check_request(op.seen[-1], ret, exp, p0, h0)
-        return None if r is None else '%s: %s' % (where, r)
+        if r is not None:
+            return '%s: %s' % (where, r)
+        # the same through a request path without a leading '/'
+        try:
+            conn.get('x')
+        except Exception as ex:
+            return '%s: probe request with a relative path raised %s: %s' % (where, type(ex).__name__, str(ex)[:100])
+        u = urlsplit(op.seen[-1].full_url)
+        segs = [x for x in u.path.split('/') if x != '']
+        if segs != list(exp['rel']):
+            return '%s: relative request path "x" goes to %r, expected segments %s' % (where, u.path, list(exp['rel']))
+        return None
 
     for n, st in enumerate(hist):
         op = st['op']
@@ -205,7 +228,7 @@ def replay_history(hist):
                 c.conn_impl.opener = _Opener()
                 conns.append(c)
             elif op == 'wrap':
-                ads = [_adapter(a) for a in st['args']]
+                ads = shared_list(st['args']) if st['aslist'] else [_adapter(a) for a in st['args']]
                 conns.append(ch.HttpConn(conns[st['parent'] - 1], adapters=ads if st['aslist'] else ads[0]))
             elif op == 'authwrap':
                 a = st['auth']
@@ -223,7 +246,7 @@ def replay_history(hist):
                 elif callers[-1].http_conn is not conns[st['conn'] - 1]:
                     return '%s: machinery: the caller does not use the plain connection it was given' % where, ['machinery']
             elif op == 'clone':
-                ads = [_adapter(a) for a in st['args']]
+                ads = shared_list(st['args']) if st['form'] == 'list' else [_adapter(a) for a in st['args']]
                 m = callers[st['caller'] - 1]
                 if st['form'] == 'list':
                     tags = ['http.clone_list_of_adapters']
@@ -265,6 +288,9 @@ def replay_history(hist):
                     return '%s: caller data/headers modified' % where, []
         except Exception as ex:
             return '%s raised %s: %s' % (where, type(ex).__name__, str(ex)[:120]), tags
+        for lst, pristine in shared.values():
+            if len(lst) != len(pristine) or any(x is not y for x, y in zip(lst, pristine)):
+                return '%s: the caller\'s list of adapters was modified (%d items, was %d)' % (where, len(lst), len(pristine)), tags
         if len(conns) != len(st['exp']):
             return '%s: machinery mismatch in number of connections' % where, ['machinery']
         for i, conn in enumerate(conns):
